@@ -9,6 +9,7 @@ CONSTANTS
     TickSteps = {1}
     NProofs = 1
     TsChoices = {0, 1, 3, 5, 6}
+    FarChoices = {"near", "fut9", "fut10", "fut12", "fut15", "futmax", "past9", "past10", "past12", "past15"}
     NonceIds = {1}
     ShareNonces = FALSE
     KidChoices = {"k1"}
